@@ -53,6 +53,15 @@ impl C13 {
         }
         C13 { tables, enumerated }
     }
+    /// the table range of a structured field must not overlap any other Player/Unit/Object field, otherwise the
+    /// reference model cannot tell the accessors apart (the published TBC table lists PLAYER_VISIBLE_ITEM as
+    /// 0x158 + 228 words, which runs into PLAYER_FIELD_INV at 0x1e6)
+    fn struct_range_is_exclusive(&self, e: Exp, tname: &str) -> bool {
+        let t = self.table(e);
+        let Some(u) = t.iter().find(|u| u.name == tname && u.kind == "Player") else { return false };
+        let (lo, hi) = (u.offset, u.offset + u.size);
+        !t.iter().any(|v| v.name != tname && ["Object", "Unit", "Player"].contains(&v.kind.as_str()) && v.offset < hi && v.offset + v.size > lo)
+    }
     fn table(&self, e: Exp) -> &Vec<UField> {
         &self.tables[Exp::ALL.iter().position(|x| *x == e).unwrap()]
     }
@@ -290,6 +299,15 @@ impl Check for C13 {
                 }
                 continue;
             }
+            let (which, n_idx) = if rng.chance(1, 2) { ("visible_item", 19) } else { ("skill_info", 128) };
+            let tname = if which == "visible_item" { "PLAYER_VISIBLE_ITEM" } else { "PLAYER_SKILL_INFO" };
+            if kind == "Player" && rng.chance(1, 8) && self.struct_range_is_exclusive(e, tname) {
+                // structured accessors (visible item / skill info) of the player
+                counter += 1;
+                let idx = if rng.chance(1, 2) { rng.below(4) } else { rng.below(n_idx) };
+                ops.push(json!({"op": "struct_set", "which": which, "idx": idx, "n": counter.wrapping_mul(2654435761), "nb": (idx + 1 + rng.below(3)) % n_idx}));
+                continue;
+            }
             match rng.below(16) {
                 0..=5 => {
                     let (f, t) = pickf(&mut rng);
@@ -311,7 +329,16 @@ impl Check for C13 {
                 9 => ops.push(json!({"op": "dirty_reset"})),
                 10 => ops.push(json!({"op": "mark_fully_dirty"})),
                 11 => ops.push(json!({"op": "has_any_dirty"})),
-                12 => ops.push(json!({"op": "is_bit_dirty", "bit": rng.below(1400)})),
+                12 => {
+                    // biased to the first and last bit of a block
+                    let blk = rng.below(44);
+                    let bit = match rng.below(4) {
+                        0 => blk * 32 + 31,
+                        1 => blk * 32,
+                        _ => rng.below(1400),
+                    };
+                    ops.push(json!({"op": "is_bit_dirty", "bit": bit}));
+                }
                 13 => ops.push(json!({"op": "restart"})),
                 _ => ops.push(json!({"op": "flush"})),
             }
@@ -337,6 +364,9 @@ impl Check for C13 {
         let mut m = RefModel::default();
         m.touch(2, type_bits(&kind), false);
         let mut replica: BTreeMap<u16, u32> = BTreeMap::new();
+        // structured accessors: the words they touch are learned from the wire; only the range is taken from the table
+        let mut tainted: Vec<(u16, u16)> = Vec::new();
+        let mut structs: BTreeMap<(String, u16), (String, bool)> = BTreeMap::new(); // value set, freshly set since last flush
         let mut last_op_was_set = false;
         let mut last_op_was_reset = false;
         let mut flushes_after_set = 0u64;
@@ -407,6 +437,43 @@ impl Check for C13 {
                     }
                     let _ = t;
                 }
+                "struct_set" => {
+                    let which = op["which"].as_str().unwrap_or("");
+                    let idx = op["idx"].as_u64().unwrap_or(0) as u16;
+                    let nb = op["nb"].as_u64().unwrap_or(0) as u16;
+                    let seedn = op["n"].as_u64().unwrap_or(1) as u32;
+                    let tname = if which == "visible_item" { "PLAYER_VISIBLE_ITEM" } else { "PLAYER_SKILL_INFO" };
+                    let (Some(x), Some(u)) = (mask.as_mut(), self.table(exp).iter().find(|u| u.name == tname && u.kind == "Player").cloned()) else { continue };
+                    let count = if which == "visible_item" { 19 } else { 128 };
+                    let stride = u.size / count;
+                    match guarded(|| um_struct_set(exp, x, which, idx, seedn, nb)) {
+                        Err((msg, loc)) => {
+                            o.violate("getter_returns_last_set", format!("{}:{}", panic_sig(&msg, &loc), tag), format!("{}: op #{} {}({}) panicked: '{}' at {}", tag, n, which, idx, msg, loc));
+                            break;
+                        }
+                        Ok(None) => continue,
+                        Ok(Some((set, got, nb_got))) => {
+                            o.count("struct_sets", 1);
+                            if got != set {
+                                o.violate("getter_returns_last_set", format!("struct-getter:{}:{}", tag, which), format!("{}: op #{} {} index {}: set {} but the getter returns {}", tag, n, which, idx, set, got));
+                            }
+                            let want_nb = structs.get(&(which.to_string(), nb)).map(|x| x.0.clone()).unwrap_or("None".to_string());
+                            if nb != idx && nb_got != want_nb {
+                                o.violate("getter_returns_last_set", format!("struct-neighbour:{}:{}", tag, which), format!("{}: op #{} after setting {} index {}, index {} reads {} (expected {})", tag, n, which, idx, nb, nb_got, want_nb));
+                            }
+                            structs.insert((which.to_string(), idx), (set, true));
+                            let lo = u.offset + idx * stride;
+                            let hi = lo + stride;
+                            tainted.push((lo, hi));
+                            let need = (hi as usize + 31) / 32;
+                            if need > m.blocks {
+                                m.blocks = need;
+                            }
+                            last_op_was_set = true;
+                            set_since_flush = true;
+                        }
+                    }
+                }
                 "finalize" => {
                     if let Some(b) = builder.take() {
                         mask = Some(um_finalize(b));
@@ -442,6 +509,9 @@ impl Check for C13 {
                     if let Some(x) = mask.as_mut() {
                         um_dirty_reset(x);
                         m.dirty.clear();
+                        for v in structs.values_mut() {
+                            v.1 = false;
+                        }
                         last_op_was_reset = true;
                     }
                 }
@@ -466,7 +536,7 @@ impl Check for C13 {
                 "is_bit_dirty" => {
                     if let Some(x) = mask.as_ref() {
                         let b = op["bit"].as_u64().unwrap_or(0) as u16;
-                        if (b as usize) < m.blocks * 32 {
+                        if (b as usize) < m.blocks * 32 && !tainted.iter().any(|(lo, hi)| b >= *lo && b < *hi) {
                             let got = um_is_bit_dirty(x, b);
                             let want = m.dirty.contains(&b);
                             o.count("dirty_queries", 1);
@@ -532,6 +602,23 @@ impl Check for C13 {
                                     }
                                 }
                             }
+                            // words of structured accessors: learned from the wire, must lie inside the table range of a structured set
+                            let in_tainted = |k: &u16| tainted.iter().any(|(lo, hi)| k >= lo && k < hi);
+                            for (k, v) in on_wire.iter().zip(vals.iter()) {
+                                if in_tainted(k) && !(m.present.contains(k) && m.value.get(k) == Some(v)) {
+                                    m.touch(*k, *v, false);
+                                }
+                            }
+                            let fresh_struct = structs.values().any(|x| x.1);
+                            if fresh_struct && !on_wire.iter().any(|k| in_tainted(k)) {
+                                o.violate("wire_form", format!("struct-not-sent:{}", tag), format!("{}: op #{} a structured accessor was set since the last flush but none of its words is on the wire", tag, n));
+                            }
+                            let on_wire_plain: Vec<u16> = on_wire.iter().copied().filter(|k| !in_tainted(k)).collect();
+                            let sent: Vec<u16> = sent.iter().copied().filter(|k| !in_tainted(k)).collect();
+                            let on_wire_all = on_wire.clone();
+                            let on_wire = on_wire_plain;
+                            let vals_all = vals.clone();
+                            let vals: Vec<u32> = on_wire_all.iter().zip(vals_all.iter()).filter(|(k, _)| !in_tainted(k)).map(|(_, v)| *v).collect();
                             if on_wire != sent {
                                 let extra: Vec<&u16> = on_wire.iter().filter(|k| !sent.contains(k)).collect();
                                 let missing: Vec<&u16> = sent.iter().filter(|k| !on_wire.contains(k)).collect();
@@ -545,10 +632,10 @@ impl Check for C13 {
                                 }
                             }
                             // client side
-                            for (k, v) in on_wire.iter().zip(vals.iter()) {
+                            for (k, v) in on_wire_all.iter().zip(vals_all.iter()) {
                                 replica.insert(*k, *v);
                             }
-                            if on_wire.contains(&2) {
+                            if on_wire_all.contains(&2) {
                                 match guarded(|| um_receive(exp, &bytes)) {
                                     Err((msg, loc)) => {
                                         o.violate("decode_written_form", format!("{}:{}", panic_sig(&msg, &loc), tag), format!("{}: decoding the written form panicked: '{}' at {}", tag, msg, loc));
@@ -558,6 +645,18 @@ impl Check for C13 {
                                     }
                                     Ok(Ok((g2, rx))) => {
                                         o.count("decoded_by_library", 1);
+                                        if um_kind(&rx) != kind {
+                                            o.violate("decode_written_form", format!("decode-kind:{}", tag), format!("{}: op #{} the written {} object is decoded as {}", tag, n, kind, um_kind(&rx)));
+                                        }
+                                        for ((which, idx), (set, fresh)) in structs.iter() {
+                                            if *fresh {
+                                                if let Some(got) = um_struct_get(exp, &rx, which, *idx) {
+                                                    if &got != set {
+                                                        o.violate("decode_written_form", format!("decoded-struct:{}:{}", tag, which), format!("{}: op #{} {} index {} reads {} on the decoded object, {} was set", tag, n, which, idx, got, set));
+                                                    }
+                                                }
+                                            }
+                                        }
                                         if g2 != guid {
                                             o.violate("decode_written_form", format!("decode-guid:{}", tag), "guid differs after decode".into());
                                         }
@@ -567,7 +666,7 @@ impl Check for C13 {
                                             _ => o.violate("decode_written_form", format!("decode-differs:{}", tag), format!("{}: op #{} the decoded mask re-encodes differently from what was written", tag, n)),
                                         }
                                         // and the typed getters of the decoded object return the sent values
-                                        let sent_vals: BTreeMap<u16, u32> = on_wire.iter().copied().zip(vals.iter().copied()).collect();
+                                        let sent_vals: BTreeMap<u16, u32> = on_wire_all.iter().copied().zip(vals_all.iter().copied()).collect();
                                         for (k2, f, t) in um_setters(exp).iter().filter(|s| s.0 == kind).take(400) {
                                             let _ = k2;
                                             let Some(u) = self.lookup(exp, &kind, f) else { continue };
@@ -599,6 +698,9 @@ impl Check for C13 {
                     }
                     um_dirty_reset(x);
                     m.dirty.clear();
+                    for v in structs.values_mut() {
+                        v.1 = false;
+                    }
                     last_op_was_reset = true;
                     if !o.violations.is_empty() {
                         break;
@@ -652,7 +754,8 @@ impl Check for C13 {
     }
 
     fn extra_evidence(&self) -> Value {
-        json!({"accessors_with_standard_signature": Exp::ALL.iter().map(|e| (e.name().to_string(), um_setters(*e).len())).collect::<BTreeMap<_, _>>(),
+        let overlaps: Vec<String> = Exp::ALL.iter().flat_map(|e| ["PLAYER_VISIBLE_ITEM", "PLAYER_SKILL_INFO"].into_iter().filter(|t| !self.struct_range_is_exclusive(*e, t)).map(|t| format!("{}:{}", e.name(), t)).collect::<Vec<_>>()).collect();
+        json!({"structured_accessors_not_exercised_because_table_ranges_overlap": overlaps,"accessors_with_standard_signature": Exp::ALL.iter().map(|e| (e.name().to_string(), um_setters(*e).len())).collect::<BTreeMap<_, _>>(),
                "accessor_functions_skipped_nonstandard_signature": Exp::ALL.iter().map(|e| (e.name().to_string(), um_skipped(*e))).collect::<BTreeMap<_, _>>(),
                "table_fields": Exp::ALL.iter().map(|e| (e.name().to_string(), self.table(*e).len())).collect::<BTreeMap<_, _>>()})
     }
